@@ -43,7 +43,7 @@ theorem get_slice (sul : SULW) (rpre rpost : List LR) (r : LR) (lpre lpost : Lis
     exact ⟨x, List.mem_append_left _ hx, hl⟩
   have hrd := recData_cutRec r (cutAll rpost lpost) (d :: ds) true r.payload (by simp)
   rw [hcr, List.cons_append] at hW hlast hrd ⊢
-  obtain ⟨vl, res, habs, hf⟩ := fetch_flat sul (cutAll rpre lpre) _ _ hs hW hlast off len
+  obtain ⟨res, habs, hf, _⟩ := fetch_flat sul (cutAll rpre lpre) _ _ hs hW hlast off len
   unfold recEntry
   rw [hf]
   simp only [Except.map]
@@ -51,6 +51,35 @@ theorem get_slice (sul : SULW) (rpre rpost : List LR) (r : LR) (lpre lpost : Lis
   -- the cuts add up to the whole payload
   have hsum := recsOK_mid_sum rpre lpre r (d :: ds) rpost lpost hlen hc.1
   rw [hsum, List.take_length]
+
+/-- **A fetch touches only the bytes of the visible records that hold the record**: every read `(position, count)`
+made by the fetch lies between the start of the visible record holding the record's first segment and the end of the
+visible record holding its last segment (these visible records are contiguous; `recEnd` follows the layout). -/
+theorem touched_subset (sul : SULW) (rpre rpost : List LR) (r : LR) (lpre lpost : List (List SegDesc)) (d : SegDesc)
+    (ds : List SegDesc) (hlen : lpre.length = rpre.length) (hs : sul.conformant = true)
+    (hc : (Layout.mk (lpre ++ (d :: ds) :: lpost)).conformant (rpre ++ r :: rpost) = true) (off : Nat) (len : Int) :
+    ∃ f, fetch (encode sul (rpre ++ r :: rpost) ⟨lpre ++ (d :: ds) :: lpost⟩)
+        ⟨(recEntry rpre lpre d).1, (recEntry rpre lpre d).2, off, len⟩ = .ok f ∧
+      ∀ t ∈ f.touched, (recEntry rpre lpre d).1 ≤ t.1 ∧
+        t.1 + t.2 ≤ recEnd ((recEntry rpre lpre d).1 + entryVrLen (cutAll rpre lpre) d) (recEntry rpre lpre d).2
+          (cutRec r true (d :: ds) r.payload ++ cutAll rpost lpost) := by
+  unfold Layout.conformant at hc
+  simp only [Bool.and_eq_true] at hc
+  have hW := segsWF_cutAll _ _ 0 hc.1 hc.2
+  unfold encode
+  simp only []
+  rw [cutAll_append rpre lpre r (d :: ds) rpost lpost hlen] at hW ⊢
+  have hcr : cutRec r true (d :: ds) r.payload = ⟨r.eflr, r.type, true, ds.isEmpty, d, r.payload.take d.n⟩ ::
+      cutRec r false ds (r.payload.drop d.n) := rfl
+  have hlast : ∃ x ∈ cutRec r true (d :: ds) r.payload ++ cutAll rpost lpost, x.last = true := by
+    obtain ⟨x, hx, hl⟩ := exists_last_cutRec r (d :: ds) true r.payload (by simp)
+    exact ⟨x, List.mem_append_left _ hx, hl⟩
+  rw [hcr, List.cons_append] at hW hlast ⊢
+  obtain ⟨res, habs, hf, r', g1, g2, g3, g4, g5⟩ := fetch_flat sul (cutAll rpre lpre) _ _ hs hW hlast off len
+  unfold recEntry
+  refine ⟨_, hf, ?_⟩
+  dsimp only at g1 g2 g3 g4 g5 habs
+  exact absLoop_touched _ _ _ _ _ ⟨_, _⟩ _ _ res r' _ g1 g2 g5 (Nat.le_refl _) (touched_init _ _ _ _ _ g1 g2 g3 g4) habs
 
 /-- **Fetching a whole record by its index entry gives exactly what the sequential read yields for it**: the payload
 written (`iter_encode` of C01 says the sequential read yields the records written). -/
